@@ -73,6 +73,7 @@ pub fn gen_scenario(r: &mut Rng, tier: Tier) -> (Scenario, &'static str) {
         7 | 8 => Api::VmThenTc {
             continue_on_error: r.chance(1, 2),
         },
+        9 if r.chance(1, 2) => Api::ReusedChecker,
         _ => Api::Phases,
     };
     let mut wd = WdPlan::budget(p, ITERATION_BUDGET / p as u64 + 1);
@@ -194,7 +195,7 @@ impl Check for C01Check {
         CheckInfo {
             id: "C01",
             level: "exploration",
-            rule: "case = one generated program (random bytes 10%, value-growth chains 8%, computed boundary constants used as offsets/sizes/shift amounts/jump targets/slot keys 10%, hostile stack-aware 22%, stack-aware 10%, storage idioms 15%, control flow 10%, mutated/cut corpus contracts 15%) x knobs (default 50%, swarm 50%) x schedule (natural keys 50%, seeded adversarial 50%) x API shape (analyze 50%, staged prefix 20%, VM-then-typechecker incl. continue-on-partial-state 20%, phases 10%) x poisoned shared table 5%; one fault-free run (under a step budget) and, for 40% of the cases, one more run with a cancellation injected at a uniformly chosen poll of the measured run (sticky, or flapping 1 in 6). evaluations = simulated runs; non-trivial = the run executed a storage instruction and more than three VM steps, or folded a class with >= 2 pieces of evidence; distinct = distinct (program, fold-order or trace digest, cancellation point), counted with a hash set",
+            rule: "case = one generated program (random bytes 10%, value-growth chains 8%, computed boundary constants used as offsets/sizes/shift amounts/jump targets/slot keys 10%, hostile stack-aware 22%, stack-aware 10%, storage idioms 15%, control flow 10%, mutated/cut corpus contracts 15%) x knobs (default 50%, swarm 50%) x schedule (natural keys 50%, seeded adversarial 50%) x API shape (analyze 50%, staged prefix 20%, VM-then-typechecker incl. continue-on-partial-state 20%, phases 5%, a second execution fed to the same TypeChecker 5%) x poisoned shared table 5%; one fault-free run (under a step budget) and, for 40% of the cases, one more run with a cancellation injected at a uniformly chosen poll of the measured run (sticky, or flapping 1 in 6). evaluations = simulated runs; non-trivial = the run executed a storage instruction and more than three VM steps, or folded a class with >= 2 pieces of evidence; distinct = distinct (program, fold-order or trace digest, cancellation point), counted with a hash set",
             assumptions: &[
                 "panics are caught with catch_unwind in the worker; aborts, stack overflows (8 MiB stack for half of the cases, 2 MiB - a spawned thread's default - for the other half) and address-space exhaustion (3 GiB) kill the worker and are attributed to the announced case by the parent",
                 "the harness build uses the repository's release settings: overflow-checks on, debug-assertions off",
